@@ -333,10 +333,14 @@ def _run_sequence(ops, c0, send_ids) -> None:
     conns.append(H.HttpConn(conns[2], adapters=H.RequestAdapterAddPathPrefix("/x")))
     expected_next = c0
     seen = set()
+    n_by_kind = {True: 0, False: 0}
     for (ci, own) in ops:
         headers = {"X-Request-ID": f"own-{len(rec.requests)}"} if own else None
         snap = dict(headers) if headers else None
-        conns[ci].get("/p", headers=headers)
+        # every verb has its own entry point on the connection objects: rotate through them (patch first)
+        verb = (["patch", "get", "post", "delete", "put"] if own else ["get", "patch", "post", "delete", "put"])[n_by_kind[bool(own)] % 5]
+        n_by_kind[bool(own)] += 1
+        getattr(conns[ci], verb)("/p", headers=headers)
         if headers != snap:
             raise Violation("caller-headers-modified :: the caller's headers dict was modified")
         req = rec.requests[-1]
